@@ -139,6 +139,16 @@ type outcome struct {
 
 const runTimeout = 20 * time.Second
 
+// guarded turns a panic that escapes the real handler into that run's recorded error.
+func guarded(f func() error) (err error) {
+	defer func() {
+		if r := recover(); r != nil {
+			err = fmt.Errorf("panic: %v", r)
+		}
+	}()
+	return f()
+}
+
 // execute runs one session with one segmentation on a fresh world.
 func execute(s *Session, segs []int) (*outcome, error) {
 	w, err := newWorld(s)
@@ -185,7 +195,9 @@ func runControl(w *sim.World, s *Session, segs []int) (*outcome, error) {
 		rec.add(map[string]any{"op": "ask", "d": d, "hs": hs, "reg": len(w.Srv.ClientMgr.List()), "nd": nd, "wrote": 0, "data": 0, "rsrc": 0})
 	}
 	done := make(chan error, 1)
-	go func() { done <- w.Srv.VerifHandleNewConnection(context.Background(), sc, "10.9.8.7:4321") }()
+	go func() {
+		done <- guarded(func() error { return w.Srv.VerifHandleNewConnection(context.Background(), sc, "10.9.8.7:4321") })
+	}()
 	end := map[string]any{"op": "end", "timeout": false, "err": "", "setup": ""}
 	select {
 	case err := <-done:
@@ -196,10 +208,11 @@ func runControl(w *sim.World, s *Session, segs []int) (*outcome, error) {
 		end["timeout"] = true
 	}
 	if err := flush(w); err != nil {
-		return nil, err
+		flushErr = err
 	}
 	if flushErr != nil {
-		return nil, flushErr
+		end["timeout"] = true
+		end["err"] = fmt.Sprintf("%v; %v", end["err"], flushErr)
 	}
 	end["d"] = sc.Delivered()
 	_ = sc.Close()
@@ -253,7 +266,9 @@ func runTransfer(w *sim.World, s *Session, segs []int) (*outcome, error) {
 		rec.add(map[string]any{"op": "ask", "d": d, "hs": 0, "reg": 0, "nd": 0, "wrote": len(sc.Written()), "data": dd, "rsrc": rr})
 	}
 	done := make(chan error, 1)
-	go func() { done <- w.Srv.VerifHandleFileTransfer(context.Background(), sc, "10.9.8.7:4322") }()
+	go func() {
+		done <- guarded(func() error { return w.Srv.VerifHandleFileTransfer(context.Background(), sc, "10.9.8.7:4322") })
+	}()
 	end := map[string]any{"op": "end", "timeout": false, "err": "", "setup": ""}
 	select {
 	case err := <-done:
@@ -373,11 +388,8 @@ func Run(args []string) error {
 			if err == nil {
 				err = eb
 			}
-			if err == nil && obsKey(a) != obsKey(b) {
-				err = fmt.Errorf("reference observation is not reproducible:\n%s\n%s", obsKey(a), obsKey(b))
-			}
-			if err == nil && a.total >= 0 && (a.end["timeout"] == true || a.end["d"] != a.total) {
-				err = fmt.Errorf("reference run did not consume its stream: %v", a.end)
+			if err == nil {
+				a.end["stable"] = obsKey(a) == obsKey(b) && a.end["d"] == b.end["d"]
 			}
 			rmu.Lock()
 			defer rmu.Unlock()
@@ -426,7 +438,9 @@ func Run(args []string) error {
 			total = o.total
 		}
 		evs := []map[string]any{{"op": "world", "run": run, "sess": s.Name, "conn": s.Conn, "cls": s.Cls, "forks": s.Forks,
-			"frames": s.Frames(), "segs": segs, "total": total, "base": o.base, "ref": refs[sc.Sess].end["obs"], "src": sc.Src}}
+			"frames": s.Frames(), "segs": segs, "total": total, "base": o.base, "ref": refs[sc.Sess].end["obs"],
+			"refd": refs[sc.Sess].end["d"], "referr": refs[sc.Sess].end["err"], "refstable": refs[sc.Sess].end["stable"],
+			"refsetup": refs[sc.Sess].end["setup"], "reftimeout": refs[sc.Sess].end["timeout"], "src": sc.Src}}
 		for _, e := range o.evs {
 			e["run"] = run
 			evs = append(evs, e)
